@@ -169,7 +169,10 @@ class Gen:
         if A.tname(ty) == "Q" and depth < 2 and not self.rich and self.noisy():
             # component of an unnamed aggregate: the sibling is dropped (always a violation)
             agg = rng.choice([A.S, A.T2])
-            return {"e": "proj", "of": self.val(st, agg, depth + 1, noborrowed), "c": rng.choice(agg["fn"])}
+            # (the aggregate must not be a place: `s.a` of a variable s is an ordinary place)
+            inner = (C("m_" + agg["name"]) if rng.random() < 0.4
+                     else ctor(agg, [self.val(st, t, depth + 1, noborrowed) for t in agg["el"]]))
+            return {"e": "proj", "of": inner, "c": rng.choice(agg["fn"])}
         if self.rich and depth < 2 and rng.random() < 0.12:
             return C("gid", self.val(st, ty, depth + 1, noborrowed))
         if self.rich and depth < 2 and A.tname(ty) == "T2" and rng.random() < 0.3:
@@ -746,5 +749,9 @@ def enumerate_small(maxsize: int, family: str):
             else:
                 vars_ = {"s": {"ty": A.S, "kind": kind}}
                 params = ["s"] if kind != "local" else []
-            yield {"vars": vars_, "params": params, "bparams": [], "ret": "none", "rty": None, "body": A.clone(body),
-                   "family": family}
+            p = {"vars": vars_, "params": params, "bparams": [], "ret": "none", "rty": None, "body": A.clone(body),
+                 "family": family}
+            n0 = A.number(p)["nstmts"]
+            strip_dead(p["body"])   # e.g. after `if c: return  else: return`
+            if A.number(p)["nstmts"] == n0:
+                yield p
